@@ -82,6 +82,19 @@ CHECKS = {
             "C15.readSlice_eq / readSlice_cmp: the lazy Iterator::eq/cmp over any two representations equals listEq/lexCmp of the owned "
             "lists; lexCmp_lawful: reflexive, antisymmetric, transitive, eq iff cmp = Equal, closed under nesting. Huffman raw vs "
             "encoded items are covered by the correspondence (all pairs across a raw and an encoded container).", "§6 C15"),
+    "C04": ("Lean proof (history theorem issued_reads for every lawful region; decide over program-text facts regenerated from /repo/src) "
+            "+ differential correspondence with byte-wise UTF-8 re-validation",
+            "C04.string_reads_pushed: after any push/clear history every issued index of a string region reads exactly the pushed "
+            "bytes, so any predicate true of all pushed strings (UTF-8 validity) is true of all strings read; single_unsafe, "
+            "string_write_paths_are_utf8, storage_is_private are decided over facts the extractor re-reads from the source on every "
+            "run (an unrecognised construct becomes `other` and fails the theorem). Scripts re-validate every &str leaving the crate "
+            "across clone/merge/serde histories.", "§6 C04"),
+    "C20": ("Lean proof (the divergent code paths — Push<ReadSlice> and Push<PushIter> for columns — equal the canonical path) + twin-run "
+            "correspondence covering every (entry, form) pair",
+            "C20.slice_item_form: pushing a read item (backed by any region, or borrowed) equals pushing its owned list; "
+            "columns_iter_form(_region): lazily created columns equal pre-padded ones. The remaining forms forward to the canonical "
+            "impl in one step and are modelled as such (transcription); the twin run compares indices, used bytes and reads of a "
+            "mixed-form history with a canonical-form twin and measures that all 416 entry x form pairs are hit.", "§6 C20"),
 }
 
 
